@@ -17,6 +17,7 @@ RULE = (
     "Pending to Ready without its waker having been woken would hang on an executor (the wake-up went to the abandoned "
     "call)."
     ' Family budget-exhausted-poll: `pollx f` polls the future inside a runtime task whose cooperative budget (tokio coop) has been used up, as a consumer draining a backlog in a loop would; the future is then abandoned — whatever the library does about the budget, later recvs return every message on the wire, in order.'
+    ' Family reconnect-abandoned (shared with C04): recv polled 0..2 times and abandoned, 1..3 times over, then a second connection registers under the SAME identity and sends two messages: later recv calls return exactly those two, as in the control with no abandoned call.'
 )
 ASSUMPTIONS = ["futures are dropped between polls (Rust futures cannot be cancelled inside a poll)"]
 TRUSTED = ["async-trait boxed futures; futures::StreamExt::next holds no state between polls"]
@@ -143,6 +144,7 @@ def cases(tier, rng):
     out = gen.corpus(ID)
     out += req_noise_cases()
     out += budget_cases()
+    out += wg.reconnect_abandoned_cases()
     n = 0
     for t in PEER:
         ms = msgs_for(t, b"1")
@@ -293,6 +295,8 @@ def oracle(case, lines):
         return lost
     if not case.expect:
         return None
+    if case.expect[0] == "reconnect-abandoned":
+        return wg.reconnect_abandoned_oracle(case, lines)
     if case.expect[0] == "budget":
         return budget_oracle(case, lines)
     if case.expect[0] == "req-noise":
